@@ -177,8 +177,14 @@ def verify_unit(repo, tmpl, outdir, do_vacuity=True, drop_hints=()):
     short = {}
     for q in res.fns:
         short[q] = q
+    # a function extracted under another name (directive option as=): Verus reports it under that name
+    alias = {}
+    for f in mp['fns']:
+        if f.get('alias'):
+            alias[(f['fn'].rsplit('::', 1)[0] + '::' if '::' in f['fn'] else '') + f['alias']] = f['fn']
     for e in fb:
         name = e['function'].split('::', 1)[1] if '::' in e['function'] else e['function']
+        name = alias.get(name, name)
         if name in res.fns:
             if res.fns[name]['status'] != 'assumed':
                 res.fns[name]['status'] = 'verified' if e.get('success') else 'failed'
